@@ -128,3 +128,54 @@ func ZZ_C20_X1_lock_close_pays_once() {
 		zzAssert("X1.close.second-close-no-payment", err2 != nil && after2 == after)
 	}
 }
+
+// X1 / committee instructions: the real HandleCommitteeSwaps with an arbitrary instruction set for
+// the existing order - a lock (or none; thorough: also a second, conflicting lock), up to two reset
+// instructions (one in the quick tier) and up to two close
+// instructions naming the existing order or an unknown id, i.e. duplicates and lock / reset / close
+// conflicts inside one certificate: the escrow identity survives, whoever is paid is paid at most
+// the escrowed amount and at most once, and only the buyer recorded by the lock can be paid.
+//
+//zz:harness mode=int unwind=60 maxpaths=100000 timebudget=2400 param.fullswaps@thorough=1
+//zz:reach X1.swaps.done X1.swaps.closed
+func ZZ_C20_X1_committee_swaps_with_duplicates_and_conflicts() {
+	sm, _ := zzFSM(10)
+	amt := zzEscrowWorld(sm)
+	other := append([]byte{}, zzOrderId...)
+	other[0] = 0x02
+	pick := func(name string) []byte {
+		if zzBool(name) {
+			return zzOrderId
+		}
+		return other
+	}
+	orders := &lib.Orders{}
+	buyer := zzConcrete(zzInt("buyer"), 1, 2)
+	if zzBool("lock") {
+		orders.LockOrders = append(orders.LockOrders, &lib.LockOrder{OrderId: pick("lock.existing"), ChainId: 1, BuyerReceiveAddress: zzAddr(buyer), BuyerSendAddress: zzAddr(buyer), BuyerChainDeadline: 100})
+	}
+	if zzParam("fullswaps", 0) == 1 && zzBool("secondLock") {
+		orders.LockOrders = append(orders.LockOrders, &lib.LockOrder{OrderId: zzOrderId, ChainId: 1, BuyerReceiveAddress: zzAddr(3 - buyer), BuyerSendAddress: zzAddr(3 - buyer), BuyerChainDeadline: 100})
+	}
+	for i, n := 0, zzConcrete(zzInt("resets"), 0, 1+zzParam("fullswaps", 0)); i < n; i++ {
+		orders.ResetOrders = append(orders.ResetOrders, pick("reset.existing"))
+	}
+	for i, n := 0, zzConcrete(zzInt("closes"), 0, 2); i < n; i++ {
+		orders.CloseOrders = append(orders.CloseOrders, pick("close.existing"))
+	}
+	before := zzBalances(sm)
+	sm.HandleCommitteeSwaps(orders, 1)
+	zzEscrowIdentity(sm, "X1.swaps")
+	after := zzBalances(sm)
+	var paid uint64
+	for i := 0; i < 3; i++ {
+		zzAssert("X1.swaps.nobody-is-debited", after[i] >= before[i])
+		paid += after[i] - before[i]
+	}
+	zzAssert("X1.swaps.paid-at-most-once", paid == 0 || paid == amt)
+	if paid != 0 {
+		zzReach("X1.swaps.closed")
+		zzAssert("X1.swaps.seller-is-never-the-payee", after[0] == before[0])
+	}
+	zzReach("X1.swaps.done")
+}
